@@ -231,6 +231,25 @@ func forEachQuery(thorough bool, bounds map[string]interface{}, fn func(*QS) boo
 	}
 	bounds["query_fields"] = fmt.Sprintf("explain x allFields x autoGroupByTime x namespace{,ns} x metric{,cpu} x %d select lists x %d conditions x %d having x %d order-by lists x %d time ranges x %d intervals x %d storage intervals x %d ratios x %d group-by lists x %d limits",
 		len(qsSel), len(qsCond), len(qsHav), len(qsOrder), len(trs), len(ivl), len(qsSIvl), len(qsRatio), len(gbs), len(limits))
+	// interval sweep: every whole multiple of every unit the interval text form knows, as Interval and as
+	// StorageInterval of an otherwise plain statement (the wire form of an interval is its text: "12M" and "1y" are not
+	// the same number of milliseconds)
+	n := 0
+	for _, u := range []struct {
+		ms  int64
+		max int64
+	}{{1000, 180}, {60_000, 180}, {3600_000, 100}, {24 * 3600_000, 800}, {7 * 24 * 3600_000, 60}, {30 * 24 * 3600_000, 40}, {365 * 24 * 3600_000, 5}} {
+		for k := int64(1); k <= u.max; k++ {
+			n++
+			if !fn(&QS{Metric: "cpu", Sel: 1, TR: qsTR[1], Interval: k * u.ms, SInterval: u.ms, Ratio: int(k), GroupBy: 1}) {
+				return
+			}
+			if !fn(&QS{Metric: "cpu", Sel: 1, TR: qsTR[1], Interval: k * u.ms, SInterval: k * u.ms, Ratio: 1}) {
+				return
+			}
+		}
+	}
+	bounds["interval_sweep"] = n
 	bools := []bool{false, true}
 	for _, ex := range bools {
 		for _, all := range bools {
